@@ -1,8 +1,12 @@
 #!/bin/bash
 # usage: tools/mutrun.sh <scratch worktree of /repo> <Cxx> [quick|thorough]
 # Runs ./check Cxx against the scratch tree WITHOUT touching /repo: a private mount namespace
-# binds the scratch tree over /repo; build artefacts, evidence and replays go to /verif/build-mut.
+# binds the scratch tree over /repo; build artefacts, evidence and replays go to a build
+# directory of their own PER WORKTREE (/verif/build-mut/<name>): cargo decides freshness by
+# path + mtime, so two different trees mounted at /repo must never share a target directory.
 wt="$1"; id="$2"; tier="${3:-quick}"
 [ -d "$wt" ] || { echo "no such worktree $wt"; exit 2; }
-mkdir -p /verif/build-mut/out
-exec unshare -m bash -c "mount --bind '$wt' /repo && cd /verif && VERIF_BUILD_DIR=/verif/build-mut VERIF_OUT_DIR=/verif/build-mut/out ./check $id $tier"
+name="$(basename "$wt")"
+b="/verif/build-mut/$name"
+mkdir -p "$b/out"
+exec unshare -m bash -c "mount --bind '$wt' /repo && cd /verif && VERIF_BUILD_DIR='$b' VERIF_OUT_DIR='$b/out' ./check $id $tier"
